@@ -217,6 +217,12 @@ fn oracle_stream(spec: &str, sched: &str, ops: &str, file: &[u8], ann: &str) -> 
             got_first.to_string()
         };
         let kind = q.chars().next().unwrap_or('?');
+        // C05: a table whose sh_entsize the slice parser refuses is refused by the stream parser too, whatever is cached
+        // (symbol tables and the version-index table; the stream parser's dynamic() makes no entry-size check — the
+        // property states that check for the slice parser only)
+        if matches!(kind, 'Y' | 'D' | 'V') && want.contains("err BadEntsize") && !want.contains("=ok") && status(&got) == "ok" {
+            return Err(format!("C05: `{}`: the stream parser accepts a table whose sh_entsize is wrong: stream `{}` slice `{}`", q, &got[..got.len().min(120)], &want[..want.len().min(120)]));
+        }
         // compressed sections are outside the query-level clause
         if kind == 'S' {
             let i = nat(&q[1..]);
@@ -224,7 +230,7 @@ fn oracle_stream(spec: &str, sched: &str, ops: &str, file: &[u8], ann: &str) -> 
                 if sh.sh_flags & abi::SHF_COMPRESSED as u64 != 0 { continue; }
             }
         }
-        if (kind == 'T' || kind == 'N' || kind == 'Y' || kind == 'D' || kind == 'V') && involves_compressed(&f) { continue; }
+        if (kind == 'T' || kind == 'N' || kind == 'Y' || kind == 'D' || kind == 'V' || kind == 'd') && involves_compressed(&f) { continue; }
         if want == got { continue; }
         let exact = matches!(kind, 'Y' | 'D' | 'V' | 'P');
         // the extended-index escape for the section-name string table is C05's clause
@@ -239,7 +245,9 @@ fn oracle_stream(spec: &str, sched: &str, ops: &str, file: &[u8], ann: &str) -> 
             if w == g { continue; }
             // relocation iterators and symbol tables are C09's subject (entries = whole entries of the section's
             // bytes), the other typed views C20's; everything else is C07 proper (C07's check reports all of them)
-            let tag = if w.starts_with("rels=") || w.starts_with("relas=") { "C09" }
+            // the entry-size check is C05's clause, through either parser
+            let tag = if w.contains("BadEntsize") || g.contains("BadEntsize") { "C05" }
+                      else if w.starts_with("rels=") || w.starts_with("relas=") { "C09" }
                       else if w.starts_with("notes=") || w.starts_with("strtab=") { "C20" } else { base_tag };
             let (sw, sg) = (status(w), status(g));
             let data_piece = w.starts_with("data=");
